@@ -66,8 +66,15 @@ func verifC15Store(dir string) (*server.Store, *server.DsManager) {
 	cfg := &conf.Config{Logger: zap.NewNop().Sugar(), StoreLocation: dir}
 	store := server.NewStore(cfg, &statsd.NoOpClient{})
 	dsm := server.NewDsManager(cfg, store, server.NoOpBus())
+	// the receiving hub already knows these namespaces, in this order (ns3, ns4, ...): payloads written by
+	// ANOTHER hub use the same "nsN" prefix names for different expansions (lib/props/c15.py: RECEIVER)
+	for _, e := range verifC15Receiver {
+		_, _ = store.NamespaceManager.AssertPrefixMappingForExpansion(e)
+	}
 	return store, dsm
 }
+
+var verifC15Receiver = []string{"http://ex.org/a/", "http://ex.org/b#", "https://s.io/x/", "http://data.mimiro.io/core/", "http://ex.org/deep/er/"}
 
 func NewVerifC15Driver(dir string) *VerifC15Driver {
 	d := &VerifC15Driver{dir: dir}
